@@ -385,6 +385,9 @@ INFERENCE_EXPRS = {
     "uninferable_none": "Inf.len(Option.None())",
     "uninferable_none_through_id": "Inf.len(Helper.id(Option.None()))",
     "explicit_type_argument": "Inf.constAny<int>()",
+    "bounded_function_value_under_hint": "{ let g: (Meter) -> int = Cmp.key; g(Meter.init(1)) }",
+    "bounded_function_value_bad_hint": "{ let g: (Plain) -> int = Cmp.key; g(Plain.init(1)) }",
+    "field_on_class_object": "Plain.v",
     "annotated_lambda": "Inf.applyAny((x: int) -> x + 1)",
     "none_with_peer": "Inf.len(Inf.pick(Option.None(), Option.Some(1)))",
     "lambda_from_first_argument": "Inf.len(Inf.mapOpt(Option.Some(1), (x) -> x + 1))",
